@@ -14,6 +14,8 @@ where
         let original_frame = self.current_frame();
 
         let index_list_start = self.data_block().cursor;
+        // same position as an index into the heap, the unit the look ups below work in
+        let index_list_lookup_start = self.data_block().start + index_list_start;
 
         let symbol_table_range = 0..self.symbol_table_block().cursor;
         for i in symbol_table_range.clone() {
@@ -47,30 +49,30 @@ where
 
         for i in symbol_table_range {
             let (_symbol, data_index) = self.get_from_symbol_table_block_ensure_index(i)?;
-            let mapped_index = self.lookup_in_data_slice(index_list_start, index_list_end, data_index)?;
+            let mapped_index = self.lookup_in_data_slice(index_list_lookup_start, index_list_end, data_index)?;
 
             let (_symbol, data_index) = self.get_from_symbol_table_block_ensure_index_mut(i)?;
             *data_index = mapped_index;
         }
         
         if let Some(original_register) = original_register {
-            let mapped_index = self.lookup_in_data_slice(index_list_start, index_list_end, original_register)?;
+            let mapped_index = self.lookup_in_data_slice(index_list_lookup_start, index_list_end, original_register)?;
             self.set_current_register(Some(mapped_index));
         }
 
         if let Some(original_value) = original_value {
-            let mapped_index = self.lookup_in_data_slice(index_list_start, index_list_end, original_value)?;
+            let mapped_index = self.lookup_in_data_slice(index_list_lookup_start, index_list_end, original_value)?;
             self.set_current_value(Some(mapped_index));
         }
 
         if let Some(original_frame) = original_frame {
-            let mapped_index = self.lookup_in_data_slice(index_list_start, index_list_end, original_frame)?;
+            let mapped_index = self.lookup_in_data_slice(index_list_lookup_start, index_list_end, original_frame)?;
             self.set_current_frame(Some(mapped_index));
         }
 
         let mut mapped_indexes = vec![0; additional_data_retentions.len()];
         for (i, additional_data_retention) in additional_data_retentions.iter().enumerate() {
-            mapped_indexes[i] = self.lookup_in_data_slice(index_list_start, index_list_end, *additional_data_retention)?;
+            mapped_indexes[i] = self.lookup_in_data_slice(index_list_lookup_start, index_list_end, *additional_data_retention)?;
         }
 
         let new_data_end = self.data_block().start + self.data_block().cursor;
